@@ -115,9 +115,10 @@ def read_tile_bytes(t):
 SQLITE_TIMEOUT = 0.3     # seconds a second connection waits for a locked database (real time: sqlite is outside the simulator)
 
 
-def make_cache(b, cache_dir=CACHE_DIR):
+def make_cache(b, cache_dir=CACHE_DIR, sqlite_timeout=None):
     """b: backend description dict"""
     typ = b['type']
+    SQLITE_TIMEOUT = sqlite_timeout if sqlite_timeout is not None else globals()['SQLITE_TIMEOUT']
     if typ == 'file':
         from mapproxy.cache.file import FileCache
         return FileCache(cache_dir, 'png', directory_layout=b.get('layout', 'tc'),
